@@ -273,10 +273,47 @@ def eval_scheme(s, ranges, seed):
     return tuple(last["target"]), store[("C", last["id"])]
 
 
+MAX_OPS = 400000        # cap on loop iterations of one numeric comparison
+
+
+def _size(xs, ranges):
+    n = 1
+    for x in xs:
+        n *= len(ranges[x.sort])
+    return n
+
+
+def numeric_cost(objs, tg, s, ranges):
+    """number of innermost loop iterations of eval_scheme + term_value;
+    None if a step's contracted/target lists are not a partition of its
+    indices (evaluation is refused)"""
+    cost = 0
+    for c in s:
+        if not step_local_ok(c):
+            return None
+        cost += _size(list(c["target"]) + list(c["contracted"]), ranges) \
+            * max(1, len(c["names"]))
+    alli = {x for o in objs for x in o[1]} | set(tg)
+    cost += _size(alli, ranges) * max(1, len(objs))
+    return cost
+
+
 def numeric_check(objs, tg, s, seed=1):
     """True if the scheme evaluates to the term on all target assignments,
-    otherwise a description of the first difference"""
+    otherwise a description of the first difference.  Guards: the step data
+    are validated first (contracted/target must partition the indices of the
+    step) and the total work is capped; {"skipped": ...} means that no
+    comparison was made."""
     ranges = default_ranges()
+    if not s:
+        return {"error": "empty scheme"}
+    cost = numeric_cost(objs, tg, s, ranges)
+    if cost is None:
+        return {"error": "contracted/target lists of a step do not "
+                         "partition the indices of the step"}
+    if cost > MAX_OPS:
+        return {"skipped": f"numeric comparison too large ({cost} loop "
+                           f"iterations > {MAX_OPS})"}
     try:
         t, tab = eval_scheme(s, ranges, seed)
     except SchemeEvalError as ex:
